@@ -84,6 +84,48 @@ Section Round.
       exact H.
   Qed.
 
+  Theorem fe_error_bound_in : forall (B E : nat -> Q) (env env' : nat -> R),
+    (forall n, Rabs (env n) <= Q2R (B n)) -> (forall n, Rabs (env' n - env n) <= Q2R (E n)) ->
+    forall e, Rabs (fe_exact env e) <= Q2R (fe_mag B e) /\
+              Rabs (fe_fl rnd env' e - fe_exact env e) <= Q2R (fe_err_in u eta B E e).
+  Proof.
+    intros B E env env' HB HE. induction e as [n|a IHa|a IHa b IHb|a IHa b IHb|a IHa b IHb]; cbn [fe_exact fe_fl fe_mag fe_err_in].
+    - split; [apply HB | apply HE].
+    - destruct IHa as [Ha1 Ha2]. split.
+      + rewrite Rabs_Ropp; assumption.
+      + replace (- fe_fl rnd env' a - - fe_exact env a) with (- (fe_fl rnd env' a - fe_exact env a)) by ring.
+        rewrite Rabs_Ropp; assumption.
+    - destruct IHa as [Ha1 Ha2], IHb as [Hb1 Hb2].
+      assert (Hm : Rabs (fe_exact env a + fe_exact env b) <= Q2R (fe_mag B a) + Q2R (fe_mag B b))
+        by (eapply Rle_trans; [apply Rabs_triang|lra]).
+      split; [rewrite Q2R_plus; exact Hm|].
+      repeat (rewrite Q2R_plus || rewrite Q2R_mult).
+      apply rnd_step; [exact Hm|].
+      replace (fe_fl rnd env' a + fe_fl rnd env' b - (fe_exact env a + fe_exact env b))
+        with ((fe_fl rnd env' a - fe_exact env a) + (fe_fl rnd env' b - fe_exact env b)) by ring.
+      eapply Rle_trans; [apply Rabs_triang|lra].
+    - destruct IHa as [Ha1 Ha2], IHb as [Hb1 Hb2].
+      assert (Hm : Rabs (fe_exact env a - fe_exact env b) <= Q2R (fe_mag B a) + Q2R (fe_mag B b)).
+      { unfold Rminus at 1. eapply Rle_trans; [apply Rabs_triang|]. rewrite Rabs_Ropp. lra. }
+      split; [rewrite Q2R_plus; exact Hm|].
+      repeat (rewrite Q2R_plus || rewrite Q2R_mult).
+      apply rnd_step; [exact Hm|].
+      replace (fe_fl rnd env' a - fe_fl rnd env' b - (fe_exact env a - fe_exact env b))
+        with ((fe_fl rnd env' a - fe_exact env a) + - (fe_fl rnd env' b - fe_exact env b)) by ring.
+      eapply Rle_trans; [apply Rabs_triang|]. rewrite Rabs_Ropp. lra.
+    - destruct IHa as [Ha1 Ha2], IHb as [Hb1 Hb2].
+      destruct (mul_step _ _ _ _ _ _ _ _ Ha1 Hb1 Ha2 Hb2) as [Hm He].
+      split; [rewrite Q2R_mult; exact Hm|].
+      repeat (rewrite Q2R_plus || rewrite Q2R_mult).
+      pose proof (rnd_step _ _ _ _ Hm He) as H.
+      replace ((Q2R (fe_mag B a) + Q2R (fe_err_in u eta B E a)) * (Q2R (fe_mag B b) + Q2R (fe_err_in u eta B E b)))
+        with (Q2R (fe_mag B a) * Q2R (fe_mag B b) +
+              (Q2R (fe_mag B a) * Q2R (fe_err_in u eta B E b) + Q2R (fe_mag B b) * Q2R (fe_err_in u eta B E a) +
+               Q2R (fe_err_in u eta B E a) * Q2R (fe_err_in u eta B E b))) by ring.
+      exact H.
+  Qed.
+
+
   (** Instance form: a list of trees accepted by the decidable test is within [tol]. *)
   Lemma Qle_bool_R : forall x y, Qle_bool x y = true -> Q2R x <= Q2R y.
   Proof. intros x y H. apply Qle_Rle, Qle_bool_iff, H. Qed.
